@@ -1303,6 +1303,17 @@ theorem genesis_round_trip_identity_partial (i : Idx) (hi : IdxInv i)
   obtain ⟨h1, h2, h3, h4⟩ := roundTrip_pairs true i hi
   exact ⟨h1, h2, h3, roundTrip_alias_restore i hi, h4⟩
 
+/-- the regenerated loop body of `InitGenesis` rebuilds the alias index (since fix `0243823`; before it the list was
+`["AddTokenPair"]` only and `genesis_round_trip_without_alias_restore_breaks_index` described the tree) -/
+theorem genesis_import_restores_aliases : restoresAliases initGenesis_loop_calls = true := by decide
+
+/-- **FULL statement for the code as it is**: for EVERY store satisfying I_index, export followed by import into a fresh store
+is the identity on all four indexes and the metadata — I_index and every book over "base + aliases" survive a genesis round
+trip.  No hypothesis about the code is left: it is `genesis_import_restores_aliases`, decided on the regenerated call list. -/
+theorem genesis_round_trip_identity (i : Idx) (hi : IdxInv i) :
+    Idx.Same (genesisRoundTrip (restoresAliases initGenesis_loop_calls) i) i :=
+  genesis_round_trip_identity_partial i hi genesis_import_restores_aliases
+
 /-- the restoring import on a store with aliases: everything comes back -/
 example :
     let i := (stepIdx genesisIdx (.registerCoin 1 10 [110, 111])).toOption.getD genesisIdx
